@@ -4,6 +4,7 @@ import CddVerif.Model.Sync
 /-! Driver ops for C12 (line protocol; see Main.lean). Only Mathlib-free imports here.
 
 * `c12.find`    — `find_in_ast(search, module)`
+* `c12.cmp`     — `cmp_ast(node0, node1)` on two statements
 * `c12.rewrite` — `RewriteAtQuery(search, replacement).visit(module)`
 * `c12.plan`    — which emission `_conform_filename` asks for, per kind (function type / name, or "new" for a missing file)
 * `c12.sync`    — `ground_truth` on three files; the IR is an opaque token and the emitters are the table of nodes
@@ -87,6 +88,10 @@ def ops : List (String × Handler) := [
     match findInAst (pathOf j "search") m with
     | .ok f => return Json.mkObj [("found", foundJ f)]
     | .error e => return errJ e),
+  ("c12.cmp", fun j => do
+    let a := stmtOf (← j.getObjVal? "a")
+    let b := stmtOf (← j.getObjVal? "b")
+    return Json.mkObj [("eq", Json.bool (cmpFound (.stmt a) b))]),
   ("c12.rewrite", fun j => do
     let m := moduleOf (← j.getObjVal? "module")
     let repl := stmtOf (← j.getObjVal? "repl")
